@@ -77,21 +77,21 @@ class World:
                     self.outer_handles.append((o, il, self.label(q, "pin")))
 
 
-def outer_handle(world, rng, i, q):
+def outer_handle(world, rng, i, q, force_proxy=False):
     """An OuterPin argument for (instance i, inner pin q): the stored pin when there is one (sometimes a
     proxy anyway), else a proxy."""
     inst = world.get("instance", i)
     pin = world.get("pin", q)
     stored = inst._pins.get(pin)
-    if stored is not None and (rng is None or rng.random() < 0.6):
+    if stored is not None and not force_proxy and (rng is None or rng.random() < 0.6):
         return stored
     return sdn.OuterPin.from_instance_and_inner_pin(inst, pin)
 
 
-def pinref_obj(world, rng, r):
+def pinref_obj(world, rng, r, force_proxy=False):
     if r[0] == "i":
         return world.get("pin", r[1])
-    return outer_handle(world, rng, r[1], r[2])
+    return outer_handle(world, rng, r[1], r[2], force_proxy)
 
 
 _SIB = {"addLibrary": ("netlist", "n", "_libraries", "library", "l"), "addDefinition": ("library", "l", "_definitions", "definition", "d"),
@@ -244,7 +244,7 @@ def execute(world, op, rng=None, tok=None):
             xs = [pinref_obj(W, rng, r) for r in op["rs"]]
             g("wire", op["w"]).disconnect_pins_from(set(xs) if op.get("asset") else xs)
         elif t == "setWirePins":
-            g("wire", op["w"]).pins = [pinref_obj(W, None if op.get("stored_only") else rng, r) for r in op["rs"]]
+            g("wire", op["w"]).pins = [pinref_obj(W, None if op.get("stored_only") else rng, r, bool(op.get("proxy"))) for r in op["rs"]]
         elif t == "setRef":
             inst = g("instance", op["i"])
             if op.get("d") is None:
